@@ -63,6 +63,57 @@ prop("C18", True,
      "Scheduler sees sync operations and hooked field/map accesses only (Go memory model below that not modelled); N goroutines argued from 2..3 plus G1/G2; std-lib-typed globals opaque; instrumentation generated by tools/instrument is trusted.",
      "DESIGN.md section 6 C18")
 
+prop("C04", True,
+     "bounded-exhaustive enumeration of the lexical product space (object x spelling x separator) through the real scanner, ground truth = the generator's object sequence",
+     "115 objects with 469 spellings (integers at the 2^31/2^63 boundaries in decimal and radix 2..36, reals, 58 executable names incl. every number look-alike, literal names, strings in literal/hex/ASCII85 form, procedures) x 13 separators: all single tokens, all ordered pairs (quick: up to 4 spellings per object), triples with the middle spelling free; literal strings with each of the 256 bytes raw/escaped/octal and line continuations; hex and ASCII85 strings with white space and odd tails; DSC comments at 6 positions with continuations; String.PS() for all byte strings of length <=2 and Name.PS() for all regular names of length <=2 read back. Observed unexecuted inside { } through the public interpreter. Exhaustive inside these pools.",
+     "Deliberately not generated: FF-terminated comments, control bytes in names, ASCII85 groups >= 2^32, reals beyond float64, radix bases with leading zeros; 64-bit integers.",
+     "DESIGN.md section 6 C04")
+prop("C05", True,
+     "complete cover of the eexec cipher's state graph (all 2^24 state/byte edges in thorough, 2^20 with every state entered in quick) plus bounded-exhaustive enumeration of container layouts and buffer positions, differential against the clear-text run",
+     "The stream cipher has 2^16 states x 256 bytes: trails covering every (state, cipher byte) edge are fed as readstring payloads inside one eexec section and compared with an independent cipher (thorough: all 16,777,216 edges in binary and again in hex; quick: 1,048,576 edges, every state used). Layout: 12 plaintexts x {binary, hex lower/upper/mixed} x white space of 5 kinds at every single and pair of positions after the fourth digit; 177 prefix classes x gaps x 6 trailers; the section placed so that the scanner's 512-byte refill boundary falls at every offset around it. Oracle: interpreter state equals that of `systemdict begin <plaintext> end <trailer>` run in the clear.",
+     "Precondition: closefile is followed by one white-space byte inside the encrypted part; hex form <=> first four ciphertext bytes are hex digits; eexecref (20-line Adobe cipher) trusted.",
+     "DESIGN.md section 6 C05")
+prop("C06", True,
+     "deviation-bounded exhaustive exploration of (model font x conforming serialisation) with an independent Type 1 producer; the reader's result compared field by field with the model",
+     "376 model fonts (16 outlines x hint configurations x metrics kinds, composites, multi-glyph fonts, dictionary/string/date/encoding variants) are written by an independent producer (t1gen: own charstring encoder, ciphers, containers PFA/binary/PFB/no-eexec/split PFB/hex-looking binary, lenIV 0/1/4/7, RD-ND-NP or -| |- |, three encoding forms, h/v/r command forms, 1/2/5-byte and div numbers, five subroutine factorings, flex at every legal position, hint replacement, dotsection, sbw, seac, four date layouts); every serialisation within <=2 (thorough 3) deviations from the plain style is read by type1.Read and compared with the model (outlines, widths, stems, 256 encoding slots, strings byte-exact, private values and defaults, creation date).",
+     "Preconditions on generated fonts: explicit closepath on every contour, integer hints/side bearings on hinted glyphs, no stem/stem3 mixing, seac only under the restrictions of DESIGN.md section 10; t1gen/t1model trusted as readings of the Type 1 book.",
+     "DESIGN.md section 6 C06")
+prop("C07", True,
+     "operation-sequence exploration: every sequence of CMap blocks over a small alphabet through the real ReadCMap against a list-of-blocks reference model; every single-fault variant",
+     "All sequences of <=3 (thorough 4) blocks over 7 kinds x entry counts {0,1,2,3} (thorough also 100), with code-length pattern, destination type, usecmap, header variants and layout as deviation points; all pairs over the full kind x count x pattern x destination alphabet; layouts (white space, comments, %% lines, one insertion at every token gap); every single fault the property names at every block position of every sequence of <=2 blocks (count 101, count larger than supplied, unequal bounds, low > high, wrong destination/source types, missing begincmap); frame departures; two and three CMaps per file. Returned tables compared with the model (sorted as specified, equal keys as multisets) including aliasing checks.",
+     "Not treated as faults (property silent): declared count smaller than supplied, reversed code-space range; cmapmodel trusted.",
+     "DESIGN.md section 6 C07")
+prop("C08", True,
+     "bounded-exhaustive enumeration of fonts in the writable domain x 5 output forms, the written bytes decoded by an independent Type 1 consumer and compared with the source font",
+     "89k (thorough 0.86M) fonts: 14 outlines x stems x widths for 1-3 glyphs, path lengths 0..40, info strings over all bytes, regular-character names, encodings (none, all-.notdef, subsets and overrides of the standard encoding), private values, dates, 0/1/3/300 glyphs; each written as PFA, PFB, binary, no-eexec and WritePDF; decoded by t1dec (own PFB de-framer strict about lengths/markers, own eexec and charstring ciphers, own tokenizer and dictionary evaluator, own charstring interpreter in exact rationals). Checked: decoded font equals the source (outlines exact for integers, within 1/214 otherwise), PFB framing, binary-form prefix rules, WritePDF length1/length2.",
+     "t1dec parses the shape the writer's template produces plus the variations the Type 1 book allows for it (not a general PostScript interpreter); creation date not compared.",
+     "DESIGN.md section 6 C08")
+prop("C09", True,
+     "bounded-exhaustive enumeration of fonts in the round-trip domain x 4 formats: library Write then library Read, deep comparison with the stated tolerances",
+     "64k (thorough 0.46M) fonts from the same families as C08 restricted to the C09 domain (integer widths, regular names, well-formed contours, any 256-entry encoding or none incl. ones leaving codes of existing glyphs unassigned, creation times in UTC/named/unnamed zones with sub-second parts) x PFA/PFB/binary/no-eexec: the font read back must equal the original (outlines exact for integers, <=0.005 otherwise, same name at all 256 codes, strings byte-exact, matrix, private values, creation time as an instant to the second).",
+     "Glyph names that shadow operators of the font program (RD, ND, def, ...) are a listed open finding; t1fonts generators/comparer trusted.",
+     "DESIGN.md section 6 C09")
+prop("C10", True,
+     "deviation-bounded exhaustive exploration of unusual-but-legal inputs produced by an independent writer x format1 x format2, checking the read-write-read closure on the real reader and writer",
+     "371 unusual fonts (fractional widths and side bearings, sbw, encodings naming absent glyphs, missing .notdef, empty strings, strings with line breaks/parentheses/backslashes, odd names, four date layouts, non-default private values, BlueScale near its default) serialised by t1gen within <=1 (thorough 2) deviations; for each accepted input and all 4x4 format pairs: Write succeeds in every format, F2 = Read(Write(F1)) equals F1 up to the three documented quantisations only, F3 = Read(Write(F2)) equals F2 exactly.",
+     "Inputs are the independent producer's files, not arbitrary bytes; no fractional-second dates; glyphs named RD/ND/NP are a listed open finding.",
+     "DESIGN.md section 6 C10")
+prop("C15", True,
+     "bounded-exhaustive enumeration of metrics values (structure in full, values k-wise) through library Write/Read and through an independent AFM writer with layout choices; closure chain Read-Write-Read-Write-Read",
+     "All shapes (1-4 glyphs, injective partial encodings, 7 ligature patterns, 6 kerning patterns: 3,432 shapes) with every text/number field a deviation point over its pool (<=1/2 deviations quick, 3 thorough): library Write -> Read must return equal metrics (widths, boxes, ligatures, codes, kern pairs in order, all header fields incl. Version and Notice); the same values through afmcodec with 15 layout dimensions (field order, tabs, CRLF, optional sections, comments, unknown keys) -> library Read; and for every accepted text the closure: names and text preserved, numbers changed only by rounding to integers, third result equal to second.",
+     "Widths and kerning within int16 (the reader's representation), names single tokens, layouts inside the AFM specification; afmcodec trusted.",
+     "DESIGN.md section 6 C15")
+prop("C19", True,
+     "bounded-exhaustive enumeration of fonts/metrics (glyph sets x encodings x outlines x matrices) with every query method compared against a naive recomputation from the definitions",
+     "32 glyph sets over {.notdef, space, A, B, Aacute} x 1,297 encodings; 32 sets x 5 encoding kinds x 6 (thorough 10) axis-aligned matrices x every assignment of 10 (17) outlines to the glyphs; afm boxes/widths; funit Rect/Rect16 unions: for each, GlyphList (each glyph once, .notdef first, encoded glyphs in code order, rest alphabetical, length = NumGlyphs), glyph and font bounding boxes (end points only, through the font matrix x 1000), PDF widths per glyph and as map, fallbacks for unknown names, for type1.Font and afm.Metrics. 11.4M executions quick, 95M thorough.",
+     "Float products compared within 1e-9 relative; a glyph whose end points all map to the origin is indistinguishable from an empty one (both readings accepted); geomref trusted.",
+     "DESIGN.md section 6 C19")
+prop("C20", True,
+     "complete enumeration of integers (thorough: all 2^32 values) and rational fractions against an exact reference, plus explicit-state search over path error states for drift",
+     "Integers: appendInt through an export shim for -70,000..70,000, every format boundary and power of two +-3 (thorough: all 2^32 int32 values) must use the proper 1/2/5-byte format and decode (reference decoder and library decoder) to the same integer; also through the public Write/Read path. Fractions: all p/q with q<=400, |p/q|<4 and offsets at format boundaries and powers of ten: |decoded-x| <= 1/214 in exact rational arithmetic. Drift: all paths of length <=3 (4) over 12 deltas x 3 segment kinds, explicit-state search over distinct error states to depth 4 (6), periodic and 10,000-segment paths: every reconstructed absolute coordinate within 1/214 of the requested one.",
+     "Tolerance 1/214 plus a few ulp; if the export shim no longer compiles the public-path families still run (shim_unavailable); numref trusted.",
+     "DESIGN.md section 6 C20")
+
 def main():
     checks, na = [], []
     props = [json.loads(l) for l in open(os.path.join(ROOT, "properties.jsonl"))]
@@ -70,7 +121,7 @@ def main():
         id = p["id"]
         e = P.get(id)
         if not e or not e["built"]:
-            na.append({"property_id": id, "reason": "check not built yet in this session (planned, see DESIGN.md section 6); a bounded-exhaustive formulation exists"})
+            na.append({"property_id": id, "reason": "no check built"})
             continue
         checks.append({
             "property_id": id,
